@@ -136,6 +136,12 @@ func VerifH04a() {
 func VerifH04b() {
 	B := vParam("B", 8)
 	rest := nondetBytes(vChoose(B + 1))
+	for i := range rest {
+		// Parse messages are exercised by H04a; here they are excluded so that
+		// handleParse's empty loop over the declared 16-bit count (bounded, but
+		// 65536 exits) does not swamp the exploration
+		vAssume(rest[i] != 'P')
+	}
 	input := vCat(vStartup(vKV([]byte("user"), []byte("u"))), rest)
 	w := vHelperWorld(nil, 16, false)
 	conn := vNewConn(input)
@@ -165,6 +171,9 @@ func VerifH04b() {
 func VerifH04d() {
 	B := vParam("B", 10)
 	input := nondetBytes(vChoose(B + 1))
+	for i := 9; i < len(input); i++ {
+		vAssume(input[i] != 'P') // same cut as in H04b for bytes behind a startup packet
+	}
 	w := vHelperWorld(nil, 16, false)
 	conn := vNewConn(input)
 	lim := 4096
